@@ -473,6 +473,15 @@ func (p *polling) DoClose(fn types.Callable) {
 			onClose()
 		}
 		p.shouldClose.Store(&shouldClose)
+		if p.Writable() {
+			// a poll installed between the test above and the store: it has
+			// not seen the pending close, and nothing else would answer it
+			p.Send([]*packet.Packet{
+				{
+					Type: packet.NOOP,
+				},
+			})
+		}
 	}
 }
 
